@@ -154,15 +154,33 @@ def recheck(only: str | None = None) -> int:
     return 0
 
 
+def table() -> int:
+    """Markdown table of the kept changes: what, what it needs, first-pass verdict, which rules catch it now."""
+    print('| id | change | needs to manifest | first pass | caught now by (own property) | also fires |')
+    print('|----|----|----|----|----|----|')
+    for name in sorted(os.listdir(SEEDED)):
+        mf = os.path.join(SEEDED, name, 'meta.json')
+        if not os.path.exists(mf):
+            continue
+        m = json.load(open(mf))
+        own = m['property']
+        f = m.get('checks', {}).get('fired', {})
+        fp = m.get('first_pass', {})
+        print(f"| {name} | {m.get('what_the_change_does', '')} | {m.get('needs_to_manifest', '')} | {fp.get('verdict', '?')} | {', '.join(f.get(own, {}).get('rules', [])) or 'MISSED'} | {', '.join(sorted(p for p in f if p != own)) or '-'} |")
+    return 0
+
+
 if __name__ == '__main__':
     ap = argparse.ArgumentParser()
-    ap.add_argument('cmd', choices=['confirm', 'recheck'])
+    ap.add_argument('cmd', choices=['confirm', 'recheck', 'table'])
     ap.add_argument('pid', nargs='?')
     ap.add_argument('k', nargs='?')
     ap.add_argument('--src')
     ap.add_argument('--skip-suite', action='store_true')
     ap.add_argument('--as', dest='as_k', help='store under seeded/<Cxx>-<AS> (round 2 and later)')
     a = ap.parse_args()
+    if a.cmd == 'table':
+        sys.exit(table())
     if a.cmd == 'recheck':
         sys.exit(recheck(a.pid))
     sys.exit(confirm(a.pid, a.k, a.src or f'/tmp/wt-{a.pid}', a.skip_suite, a.as_k))
